@@ -51,7 +51,6 @@ class Gen:
     def __init__(self, rng):
         self.rng = rng
         self.ncls = 0
-        self.top_pool = POOL
 
     def names(self, n, pool=None):
         pool = POOL if pool is None else pool
